@@ -231,7 +231,7 @@ def lo_snp_scenario(rng, k, ns, length, nsites, tries=100, amb=False):
     return None
 
 
-def lo_indel_scenario(rng, k, ns, length, nind, tries=100, tandem=False, fixed_len=None):
+def lo_indel_scenario(rng, k, ns, length, nind, tries=100, tandem=False, fixed_len=None, twins=False):
     """ancestor + planted insertions/deletions (length 1..10 < k, >= 4k apart and from the ends), carrier sets"""
     for _ in range(tries):
         anc = gen.rand_seq(rng, length)
@@ -264,7 +264,16 @@ def lo_indel_scenario(rng, k, ns, length, nind, tries=100, tandem=False, fixed_l
             else:
                 seq = anc[p:p + ln]
                 long = set(range(ns)) - carriers    # carriers lack them
+            if twins and inds and not tandem:
+                # the same bases inserted (or deleted: the ancestor gets them at this place too) in the same samples as
+                # the first indel - two different indels whose alleles and genotypes read alike
+                f = inds[0]
+                ln, kind, seq, carriers, long = f["len"], f["kind"], f["seq"], set(f["carriers"]), set(f["long"])
+                if kind == "del":
+                    anc = anc[:p] + seq + anc[p + ln:]
             inds.append({"pos": p, "len": ln, "kind": kind, "seq": seq, "carriers": sorted(carriers), "long": sorted(long)})
+        if twins and not mers_unique_per_position([[{"seq": anc, "off": 0, "rev": False}]], k - 1):
+            continue
         samples = []
         for s in range(ns):
             g, shift = anc, 0
